@@ -85,7 +85,13 @@ def move(fn, result):
     if exists:
         os.unlink(fn)
     else:
-        shutil.move(fn, nfn)
+        # staging may be on another file system where a move is a copy then
+        # a delete: complete it out of sight then rename into place
+        incoming = os.path.join(dawgie.context.data_dbs, 'incoming')
+        os.makedirs(incoming, exist_ok=True)
+        part = os.path.join(incoming, os.path.basename(fn))
+        shutil.move(fn, part)
+        os.replace(part, nfn)
 
     return result, exists
 
